@@ -71,12 +71,41 @@ for rel in ['cache/l2inmemorycache.go', 'cache/l2inmemorycache.sharded_map.go']:
         s = s.replace('\t"time"\n', '')
     emit(rel, add_import(s, rel))
 
-# 4. scheduling points at file operations
+# 4. scheduling points + fault/crash sites at file operations
+def insert_before(src, rel, needle, stmt, essential, nth=1):
+    idx = -1
+    for _ in range(nth):
+        idx = src.find(needle, idx + 1)
+        if idx < 0:
+            break
+    if idx < 0:
+        if essential:
+            print(f'instr: ESSENTIAL anchor missing in {rel}: {needle}', file=sys.stderr); sys.exit(2)
+        missing.append(f'{rel}: {needle}')
+        return src
+    bol = src.rfind('\n', 0, idx) + 1
+    indent = re.match(r'\s*', src[bol:]).group(0)
+    return src[:bol] + indent + stmt.replace('\n', '\n' + indent) + '\n' + src[bol:]
+
 s = load('fs/fileio.go')
-for name, arg in [('WriteFile', 'name'), ('ReadFile', 'name'), ('Remove', 'name'), ('Stat', 'path'), ('MkdirAll', 'path'), ('RemoveAll', 'path'), ('Exists', 'path'), ('ReadDir', 'sourceDir')]:
+for name, arg, data, ret in [('WriteFile', 'name', 'data', 'return err'), ('ReadFile', 'name', 'nil', 'return nil, err'), ('Remove', 'name', 'nil', 'return err'),
+                             ('Stat', 'path', 'nil', 'return nil, err'), ('MkdirAll', 'path', 'nil', 'return err'), ('RemoveAll', 'path', 'nil', 'return err'),
+                             ('ReadDir', 'sourceDir', 'nil', 'return nil, err')]:
     sig = f'func (dio defaultFileIO) {name}(ctx context.Context, '
-    s = insert_after(s, 'fs/fileio.go', sig, f'vhook.Point("file", "{name} "+{arg})', False)
+    s = insert_after(s, 'fs/fileio.go', sig, f'if err := vhook.IO("{name}", {arg}, {data}, 0); err != nil {{\n\t\t{ret}\n\t}}', True)
+s = insert_after(s, 'fs/fileio.go', 'func (dio defaultFileIO) Exists(ctx context.Context, ', 'vhook.Point("file", "Exists "+path)', False)
 emit('fs/fileio.go', add_import(s, 'fs/fileio.go'))
+
+s = load('fs/hashmap.go')
+s = insert_before(s, 'fs/hashmap.go', 'if err := dio.file.Truncate(hm.getSegmentFileSize()); err != nil {',
+                  'if err := vhook.IO("truncate", filename, nil, hm.getSegmentFileSize()); err != nil {\n\thm.cache.Unlock(ctx, lk)\n\treturn result, err\n}', True)
+emit('fs/hashmap.go', add_import(s, 'fs/hashmap.go'))
+
+s = load('fs/transactionlog.go')
+s = insert_before(s, 'fs/transactionlog.go', 'f, err := os.Create(filename)', 'if err := vhook.IO("create", filename, nil, 0); err != nil {\n\treturn err\n}', True)
+s = insert_before(s, 'fs/transactionlog.go', 'if err := tl.encoder.Encode(sop.KeyValuePair[int, []byte]{', 'if err := vhook.IO("append", tl.format(tl.tid), payload, int64(commitFunction)); err != nil {\n\treturn err\n}', True)
+s = insert_before(s, 'fs/transactionlog.go', 'return os.Remove(tl.format(tid))', 'if err := vhook.IO("remove", tl.format(tid), nil, 0); err != nil {\n\treturn err\n}', True)
+emit('fs/transactionlog.go', add_import(s, 'fs/transactionlog.go'))
 
 # 5. scheduling points at the sharded map primitives (class "map": only enabled by C28)
 rel = 'cache/l2inmemorycache.sharded_map.go'
